@@ -32,6 +32,7 @@ type Step struct {
 	ToWAL        bool              `json:"to_wal,omitempty"`
 	ForeignClose bool              `json:"foreign_close,omitempty"` // another connection, which read earlier, closes its handle between the writer's page writes and its commit
 	Die          bool              `json:"die,omitempty"`           // rtx: the client dies after its page writes (hot journal left, locks gone); LiteFS then recovers (role change / halt)
+	JSplit       int               `json:"jsplit,omitempty"`        // records in the journal's first segment (0: one segment)
 	FailCommit   bool              `json:"fail_commit,omitempty"`   // the rename that publishes the transaction file fails once: SQLite rolls back
 	Split        bool              `json:"split,omitempty"`
 	CkptMode     int               `json:"ckpt_mode,omitempty"` // 0 passive 1 full 2 restart 3 truncate
@@ -342,6 +343,9 @@ func (h *Runner) genRTX(cur uint32, toWAL bool) Step {
 	if cur > 0 && r.Chance(18) {
 		st.Spill = 1 + r.Intn(3)
 	}
+	if h.Cfg.Clients && cur > 1 && r.Chance(25) {
+		st.JSplit = 1 + r.Intn(3)
+	}
 	if h.Cfg.CommitFaults && cur > 0 && st.Outcome == 0 && !toWAL && r.Chance(15) {
 		st.FailCommit = true
 	}
@@ -434,7 +438,7 @@ func (h *Runner) Exec(st Step) Obs {
 				return
 			}
 			wal := h.WALMode || st.ToWAL
-			tx := lfs.Tx{Writes: map[uint32][]byte{}, NewSize: st.NewSize, Wal: wal}
+			tx := lfs.Tx{Writes: map[uint32][]byte{}, NewSize: st.NewSize, Wal: wal, JournalSplit: st.JSplit}
 			for pg, cid := range st.Writes {
 				tx.Writes[pg] = h.page(pg, cid, st.NewSize, wal)
 			}
